@@ -16,6 +16,17 @@ Bounded-exhaustive enumeration (engine E1).  Alphabets (all rebuilt from small i
 Oracles are semantic (matrices from the reference embedding mc.ref.embed, eigen-decomposition documented by EigenGate,
 block matrices for controls, conjugation by Z for phase_by, commutators, Pauli conjugation, eigen-phase arcs).
 Only the SOUNDNESS direction of predicates is demanded; None / NotImplemented / conservative answers are always legal.
+
+Genuine defects of the unchanged tree reported by this check (violation signature key `defect`; `reproducers()` at the
+bottom of this file shows each one stand-alone):
+  qudit_xz_controlled_specialised_to_qubit_gate  XPowGate/ZPowGate(dimension=3).controlled() returns the qubit CNOT/CZ
+  sqclifford_commutes_ignores_phase              commutes(SingleQubitCliffordGate.X, .Z) is True (tableaux drop the phase)
+  pauli_interaction_approx_values                approx_eq / equal_up_to_global_phase of PauliInteractionGates ignore the Paulis
+  ionq_ms_eq_ignores_theta                       cirq_ionq.MSGate equality ignores theta
+  matrixgate_approx_eq_shape                     approx_eq of MatrixGates of different size raises ValueError
+  tagged_commutes_drops_default                  (definitely_)commutes(tagged op, measurement) raises TypeError
+  product_of_sums_or                             ProductOfSums | ProductOfSums on >=2 qubits is not the union
+  paulistring_pow_drops_coefficient              (1j*Y(q))**t drops the coefficient
 """
 from __future__ import annotations
 
@@ -1409,3 +1420,76 @@ def stages(tier, seed):
         CaseStage("gate_pair_predicates", gate_pairs, run_gate_pair, reset=reset, describe=gname),
         CaseStage("op_pair_predicates", op_pairs, run_op_pair, reset=reset, describe=lambda c: [LETTERS.name(k) for k in c]),
     ]
+
+
+# --------------------------------------------------------------------------------------------------------------
+# Stand-alone reproducers of the genuine Cirq defects this check reports on the unchanged tree (signature key
+# `defect` of the violations).  Run:  cd /verif && PYTHONPATH=.:/repo/cirq-core:/repo/cirq-ionq:/repo/cirq-google \
+#                                      /venv/bin/python -m checks.c08_gate_algebra
+
+
+def reproducers():
+
+    q0, q1 = cirq.LineQubit.range(2)
+    out = []
+
+    # D1 qudit X/Z .controlled() is specialised to the QUBIT gates CNOT / CZ
+    g = cirq.XPowGate(dimension=3).controlled()
+    out.append(("D1a XPowGate(dimension=3).controlled()", repr(g), cirq.qid_shape(g), "expected qid_shape (2, 3)"))
+    g = cirq.ZPowGate(dimension=3, exponent=0.5).controlled()
+    out.append(("D1b ZPowGate(dimension=3)**0.5 .controlled()", repr(g), cirq.qid_shape(g), "expected qid_shape (2, 3)"))
+    try:
+        cirq.XPowGate(dimension=3).on(cirq.LineQid(0, 3)).controlled_by(q1)
+        out.append(("D1c controlled_by", "ok"))
+    except ValueError as e:
+        out.append(("D1c XPowGate(dimension=3).on(qutrit).controlled_by(qubit)", "raises ValueError: " + str(e)[:60]))
+
+    # D2 commutes() of two SingleQubitCliffordGates ignores the global phase
+    S = cirq.SingleQubitCliffordGate
+    u, v = cirq.unitary(S.X), cirq.unitary(S.Z)
+    out.append(("D2 commutes(SingleQubitCliffordGate.X, .Z)", cirq.commutes(S.X, S.Z), "|[X,Z]| =", float(np.abs(u @ v - v @ u).max())))
+
+    # D3 PauliInteractionGate: approximate equality values come from EigenGate (eigen-phases only)
+    a = lambda: cirq.PauliInteractionGate(cirq.Z, False, cirq.X, False)
+    b = lambda: cirq.PauliInteractionGate(cirq.Y, False, cirq.Y, False)
+    out.append(("D3a approx_eq(PauliInteraction(Z,X), PauliInteraction(Y,Y)) on fresh objects", cirq.approx_eq(a(), b()),
+                "equal_up_to_global_phase:", cirq.equal_up_to_global_phase(a(), b()),
+                "max|Ua-Ub| =", float(np.abs(cirq.unitary(a()) - cirq.unitary(b())).max())))
+    x, y = a(), b()
+    _ = x == y  # fills the shared cached-method slot with the exact values -> the answer flips
+    out.append(("D3b same call after `x == y` was evaluated", cirq.approx_eq(x, y)))
+
+    # D4 cirq_ionq.MSGate equality ignores theta
+    m1, m2 = cirq_ionq.MSGate(phi0=0.1, phi1=0.2), cirq_ionq.MSGate(phi0=0.1, phi1=0.2, theta=0.1)
+    out.append(("D4 ionq MSGate(.1,.2) == MSGate(.1,.2,theta=.1)", m1 == m2, "max|U1-U2| =", float(np.abs(cirq.unitary(m1) - cirq.unitary(m2)).max())))
+
+    # D5 approx_eq of MatrixGates of different size raises
+    try:
+        out.append(("D5 approx_eq(MatrixGate(2x2), MatrixGate(4x4))", cirq.approx_eq(cirq.MatrixGate(np.eye(2)), cirq.MatrixGate(np.eye(4)))))
+    except ValueError as e:
+        out.append(("D5 approx_eq(MatrixGate(2x2), MatrixGate(4x4))", "raises ValueError: " + str(e)[:70]))
+
+    # D6 TaggedOperation._commutes_ drops the default: definitely_commutes raises
+    for name, f in (("definitely_commutes(X(q0).with_tags('t'), measure(q0))", lambda: cirq.definitely_commutes(cirq.X(q0).with_tags("t"), cirq.measure(q0, key="m"))),
+                    ("commutes(..., default=None)", lambda: cirq.commutes(cirq.X(q0).with_tags("t"), cirq.measure(q0, key="m"), default=None)),
+                    ("untagged: definitely_commutes(X(q0), measure(q0))", lambda: cirq.definitely_commutes(cirq.X(q0), cirq.measure(q0, key="m")))):
+        try:
+            out.append(("D6 " + name, f()))
+        except TypeError as e:
+            out.append(("D6 " + name, "raises TypeError"))
+
+    # D7 ProductOfSums.__or__ on >=2 qubits is not the union
+    r = cirq.ProductOfSums([1, 1]) | cirq.ProductOfSums([0, 0])
+    out.append(("D7 ProductOfSums([1,1]) | ProductOfSums([0,0])", sorted(r.expand()), "expected [(0, 0), (1, 1)]"))
+
+    # D8 single-qubit PauliString ** t drops the coefficient
+    ps = 1j * cirq.Y(q0)
+    out.append(("D8 (1j*Y(q0))**2", repr(ps ** 2), np.round(cirq.unitary(ps ** 2), 3).tolist(), "matrix power:",
+                np.round(np.linalg.matrix_power(cirq.unitary(ps), 2), 3).tolist()))
+
+    for row in out:
+        print(*row)
+
+
+if __name__ == "__main__":
+    reproducers()
